@@ -42,6 +42,22 @@ def lncdfGrad (Phi : α → α) (z : α) : α :=
   if lncdfBackwardSmallMask z then lncdfBackwardSmall (lncdfSmallNum z) (lncdfSmallDen z)
   else lncdfBackwardNotSmall z (lncdf Phi z)
 
+/-- the gradient (per unit `grad_output`) returned by the `k`-th backward pass (`k = 0`: the first) through ONE graph
+(`retain_graph=True`): every pass reads the saved tensors / `ctx` attributes as the previous pass left them
+(`lncdfBackwardStateAfter`, regenerated from the source with in-place operations followed through their aliases). -/
+def lncdfBackwardNth : Nat → α → α → α → α → α
+  | 0, z, logPhi, num, den =>
+    if lncdfBackwardSmallMask z then lncdfBackwardSmall num den else lncdfBackwardNotSmall z logPhi
+  | k + 1, z, logPhi, num, den =>
+    let s := lncdfBackwardStateAfter z logPhi num den ((1 : Nat) : α)
+    lncdfBackwardNth k s.1 s.2.1 s.2.2.1 s.2.2.2.1
+
+/-- `BernoulliLikelihood.expected_log_prob`: the sign handed to the integrand for a label `y`, given whether the
+observations of THIS call contain a `-1` (`anyNeg`; then they are read as the deprecated `{-1, 1}` encoding and used as
+they are).  That the branch is selected by the current observations only is the generated fact
+`bernoulliLabelGuardIsCurrentInput`. -/
+def bernoulliLabelMap (anyNeg : Bool) (y : α) : α := if anyNeg then y else bernoulliSign y
+
 /-- `likelihood.expected_log_prob(y, N(m,v))` / `log_marginal` of a `_OneDimensionalLikelihood` whose rule is `rule` and
 whose conditional log density is `logp` (generated wiring: which function goes into the rule, where the `log` is). -/
 def expectedLogProb (rule : List (α × α)) (logp : α → α) (m v : α) : α :=
@@ -109,5 +125,42 @@ def polyExpect (cs : List α) (m v : α) : α :=
   ((cs.zipIdx).map fun ck => ck.1 * gaussMomentFast m v ck.2).foldr (· + ·) ((0 : Nat) : α)
 
 end exact
+
+/-! ### the moment equations of a node table, certified in `ℚ`
+
+`hermgauss(N)` is *characterised* by the `2N` equations `(1/√π)·Σᵢ wᵢ tᵢᵏ = M_k(0, ½)`, `k < 2N`
+(`C13.exact_of_moment_equations`).  A float64 table satisfies them up to a residual; `momentResidualBound` computes, in
+exact rational arithmetic, an upper bound of that residual that is valid for every value of `1/√π` in the certified
+enclosure `[invSqrtPiLo, invSqrtPiHi]` (`C13.moment_residual_certified`). -/
+
+section moments
+variable {α : Type} [Add α] [Mul α] [NatCast α]
+
+def powNat (x : α) : Nat → α
+  | 0 => ((1 : Nat) : α)
+  | k + 1 => x * powNat x k
+
+/-- `Σᵢ wᵢ·tᵢᵏ` -/
+def momentSum (rule : List (α × α)) (k : Nat) : α :=
+  (rule.map fun tw => tw.2 * powNat tw.1 k).foldr (· + ·) ((0 : Nat) : α)
+
+end moments
+
+/-- `invSqrtPiLo ≤ 1/√π ≤ invSqrtPiHi` (proved from Mathlib's 20-digit bounds of `π`: `Bridge/Quadrature.lean`) -/
+def invSqrtPiLo : Rat := 56418958354775628694 / 100000000000000000000
+def invSqrtPiHi : Rat := 56418958354775628695 / 100000000000000000000
+
+def ratAbs (x : Rat) : Rat := if x < 0 then -x else x
+def ratMax (x y : Rat) : Rat := if x < y then y else x
+
+/-- upper bound of `|c·Σᵢ wᵢ tᵢᵏ − M_k(0,½)|` for every `c ∈ [invSqrtPiLo, invSqrtPiHi]` (the expression is affine in `c`) -/
+def momentResidualBound (rule : List (Rat × Rat)) (k : Nat) : Rat :=
+  let S := momentSum rule k
+  let M := gaussMomentFast (0 : Rat) (1 / 2) k
+  ratMax (ratAbs (invSqrtPiLo * S - M)) (ratAbs (invSqrtPiHi * S - M))
+
+/-- the scale `invSqrtPiHi·Σᵢ |wᵢ|·|tᵢ|ᵏ` the residual is reported against -/
+def momentAbsScale (rule : List (Rat × Rat)) (k : Nat) : Rat :=
+  invSqrtPiHi * momentSum (rule.map fun tw => (ratAbs tw.1, ratAbs tw.2)) k
 
 end Quadrature
